@@ -1,4 +1,4 @@
-import WtfModel.Props.C07
+import WtfModel.Props.C07b
 #print axioms Wtf.C07.no_override
 #print axioms Wtf.C07.fallback_only_when_nothing
 #print axioms Wtf.C07.accepts_iff_subseq
@@ -11,3 +11,5 @@ import WtfModel.Props.C07
 #print axioms Wtf.C07.best_first_normalised
 #print axioms Wtf.C07.complete
 #print axioms Wtf.C07.empty_query_no_fallback
+#print axioms Wtf.C07.normMono
+#print axioms Wtf.C07.best_first_reported
